@@ -128,6 +128,21 @@ for _k, _v in EXTRA3.items():
     EXTRA[_k] = EXTRA.get(_k, '') + _v
 for _k, _v in EXTRA4.items():
     EXTRA[_k] = EXTRA.get(_k, '') + _v
+EXTRA5 = {
+    'C01': ' tf.TensorSpec declarations carry the attribute\'s own dtype and shape.',
+    'C02': ' no assert / log argument performs work the program needs.',
+    'C04': ' lists are loaded at the time of use (not in constructors); codecs pair the same library calls.',
+    'C06': ' closing a shard computes its digests (call graph).',
+    'C07': ' the native worker only opens one shard per task (no decoding in the worker).',
+    'C10': ' no mutable container is shared through a class body; no effectful assert.',
+    'C14': ' native tasks are single shards; every interleaving buffer is bounded by file_parallelism.',
+    'C15': ' the native thread count is the caller\'s; no effectful assert.',
+    'C16': ' the file is read once per set of hash objects; failures of the digest computation are re-raised.',
+    'C19': ' log arguments do not consume the stream.',
+    'C20': ' write_config always saves the description; safe_update_file writes exactly the text it was given.',
+}
+for _k, _v in EXTRA5.items():
+    EXTRA[_k] = EXTRA.get(_k, '') + _v
 for _pid, _t in EXTRA.items():
     _a, _b, _c = P[_pid]
     P[_pid] = (_a + _t, _b, _c)
